@@ -1,7 +1,9 @@
 -- written by bin/mkroundpins from /repo at commit 472862f
 namespace Mps.SrcPins.SrcDoernerSign
 def f_round1R : List String := [
+  "decl:message1R 7d7c748296cb31b176b558bc",
   "message1R.RoundNumber b4fc1b1a37769dc302afcc74",
+  "decl:round1R d90ddbbadc67a1387dbf3d36",
   "round1R.VerifyMessage 802d63134a23acda92d7513c",
   "round1R.StoreMessage 802d63134a23acda92d7513c",
   "round1R.Finalize 5c47dd05886617a5bb3a4399",
@@ -9,7 +11,9 @@ def f_round1R : List String := [
   "round1R.Number b4fc1b1a37769dc302afcc74"
 ]
 def f_round1S : List String := [
+  "decl:message1S 31adf58cf5ec91847b548377",
   "message1S.RoundNumber afbf3b2d17fee1f6ce5e2421",
+  "decl:round1S 07de5c16e8fdfdbcb5425a03",
   "round1S.VerifyMessage aa01d88f1dbf33bc95323d24",
   "round1S.StoreMessage 7d3cb33b0754ebbd6bc5602e",
   "round1S.Finalize 3f81b8f8630c4f6fcc44e1a5",
@@ -17,7 +21,9 @@ def f_round1S : List String := [
   "round1S.Number b4fc1b1a37769dc302afcc74"
 ]
 def f_round2R : List String := [
+  "decl:message2R e85cc5f500c2a54854c5f250",
   "message2R.RoundNumber afbf3b2d17fee1f6ce5e2421",
+  "decl:round2R c30e00b41cf9c8c353fae071",
   "round2R.VerifyMessage 55089a70bde07593d61f9988",
   "round2R.StoreMessage 10aa680dd197eca2608e054d",
   "round2R.Finalize 0034ae85b316941028549555",
@@ -25,6 +31,7 @@ def f_round2R : List String := [
   "round2R.Number afbf3b2d17fee1f6ce5e2421"
 ]
 def f_round2S : List String := [
+  "decl:round2S 78a69eb7e463859190e34bd1",
   "round2S.VerifyMessage 4c5879eb1f4d2b0273a65973",
   "round2S.StoreMessage 8adc86b1a09b3575e261421d",
   "round2S.Finalize ca251e9de4a06570edf520c6",
